@@ -131,24 +131,25 @@ Proof.
   - cbn [N.of_nat] in Hn. rewrite N.pow_0_r in Hn. assert (n = 0) by lia. subst n. cbn [digits_fuel]. lia.
   - cbn [digits_fuel].
     pose proof (N.div_mod n 10 ltac:(lia)) as Hdm. pose proof (N.mod_lt n 10 ltac:(lia)) as Hlt.
-    destruct (N.eqb (n / 10) 0) eqn:E.
+    assert (Hq : n / 10 < 2 ^ N.of_nat f).
+    { rewrite Nat2N.inj_succ, N.pow_succ_r' in Hn. apply N.div_lt_upper_bound; lia. }
+    remember (n mod 10) as dg eqn:Hdg. remember (n / 10) as q eqn:Hqq.
+    destruct (N.eqb q 0) eqn:E.
     + apply N.eqb_eq in E. cbn [digits_value]. rewrite digits_value_shift.
-      replace (10 * 0 + (48 + n mod 10 - 48)) with n by lia. reflexivity.
-    + apply N.eqb_neq in E. rewrite IH.
-      * cbn [length digits_value]. rewrite (digits_value_shift (10 * 0 + (48 + n mod 10 - 48)) acc).
-        rewrite Nat2N.inj_succ, N.pow_succ_r'.
-        replace (10 * 0 + (48 + n mod 10 - 48)) with (n mod 10) by lia.
-        generalize dependent (10 ^ N.of_nat (length acc)). intros p. generalize (digits_value 0 acc). intros q.
-        rewrite Hdm at 3. lia.
-      * rewrite Nat2N.inj_succ, N.pow_succ_r' in Hn.
-        apply N.div_lt_upper_bound; [lia|]. lia.
+      replace (10 * 0 + (48 + dg - 48)) with n by lia. reflexivity.
+    + rewrite (IH q _ Hq).
+      cbn [length digits_value]. rewrite (digits_value_shift (10 * 0 + (48 + dg - 48)) acc).
+      rewrite Nat2N.inj_succ, N.pow_succ_r'.
+      replace (10 * 0 + (48 + dg - 48)) with dg by lia.
+      rewrite Hdm. ring.
 Qed.
 
 Lemma digits_fuel_digits fuel : forall n acc, Forall is_digit acc -> Forall is_digit (digits_fuel fuel n acc).
 Proof.
   induction fuel as [|f IH]; intros n acc Hacc; cbn [digits_fuel]; [exact Hacc|].
   pose proof (N.mod_lt n 10 ltac:(lia)) as Hlt.
-  assert (Hd : Forall is_digit ((48 + n mod 10) :: acc)) by (constructor; [unfold is_digit; lia|exact Hacc]).
+  assert (Hd : Forall is_digit ((48 + n mod 10) :: acc)).
+  { constructor; [|exact Hacc]. unfold is_digit. generalize dependent (n mod 10). intros dg Hdg. lia. }
   destruct (N.eqb (n / 10) 0); [exact Hd|apply IH; exact Hd].
 Qed.
 
